@@ -5,6 +5,7 @@
 package rtsp
 
 import (
+	"github.com/cnotch/ipchub/utils/simhook"
 	"crypto/md5"
 	"encoding/hex"
 	"errors"
@@ -587,6 +588,7 @@ func (c *PullClient) requestWithResponse(r *Request) (*Response, error) {
 }
 
 func (c *PullClient) request(req *Request) error {
+	simhook.BeforeLock(&c.lockW)
 	c.lockW.Lock()
 	err := req.Write(c.conn)
 	if err == nil {
@@ -606,6 +608,7 @@ func (c *PullClient) request(req *Request) error {
 }
 
 func (c *PullClient) response(resp *Response) error {
+	simhook.BeforeLock(&c.lockW)
 	c.lockW.Lock()
 	err := resp.Write(c.conn)
 	if err == nil {
